@@ -438,8 +438,27 @@ fn to_result<T>(r: Result<Result<T, MuxerError>, String>, cfg: &CCfg, map: impl 
         Ok(Ok(v)) => map(v),
         Ok(Err(e)) => {
             let (class, variant) = classify(&e, cfg.codec % 4, cfg.is_aac());
-            // Display / Debug must not panic either (C12); formatted inside guarded() by the caller where relevant
-            CallResult::Err { class, variant, display: guarded(|| format!("{}", e)).unwrap_or_else(|p| format!("<Display panicked: {}>", p)) }
+            // every public way of looking at an error value must be panic-free as well (C12)
+            let fmt = guarded(|| {
+                let d = format!("{}", e);
+                let _ = format!("{:?}", e);
+                let _ = format!("{:#}", e);
+                if let MuxerError::InvalidAdtsDetailed { error, .. } = &e {
+                    let _ = error.to_json();
+                    let _ = error.to_json_compact();
+                    let _ = error.is_critical();
+                    let _ = error.all_errors().len();
+                    let _ = format!("{:#}", error);
+                }
+                if let MuxerError::Io(ioe) = &e {
+                    let _ = std::error::Error::source(ioe);
+                }
+                d
+            });
+            match fmt {
+                Ok(display) => CallResult::Err { class, variant, display },
+                Err(p) => CallResult::Panic(format!("formatting {}: {}", variant, p)),
+            }
         }
         Err(p) => CallResult::Panic(p),
     }
@@ -567,4 +586,26 @@ impl CallTag for RecSink {
 /// Convenience: run and also append a final in-place finish when the history has none.
 pub fn run_to_file(cfg: &CCfg, ops: &[COp]) -> Run {
     run_history(cfg, ops)
+}
+
+
+/// Plain executor for arbitrary sink types (no call tagging): returns the per-call results only.
+pub fn run_plain<W: Write>(w: W, cfg: &CCfg, ops: &[COp], between: &dyn Fn(usize)) -> (CallResult, Vec<CallResult>) {
+    struct NoTag<W>(W);
+    impl<W: Write> Write for NoTag<W> {
+        fn write(&mut self, b: &[u8]) -> std::io::Result<usize> {
+            self.0.write(b)
+        }
+        fn flush(&mut self) -> std::io::Result<()> {
+            self.0.flush()
+        }
+    }
+    impl<W> CallTag for NoTag<W> {
+        fn tagger(&self) -> Box<dyn Fn(usize)> {
+            Box::new(|_| ())
+        }
+    }
+    let _ = between;
+    let run = run_history_on(cfg, ops, NoTag(w), SinkState::default);
+    (run.build, run.results)
 }
